@@ -98,13 +98,17 @@ class Extractor:
         for i, pc in enumerate(pieces):
             if i > 0:
                 a = args[i - 1]
-                if not re.fullmatch(r"\w+", a) or a not in ptypes:
+                if re.fullmatch(r"\d+", a):
+                    pass
+                elif not re.fullmatch(r"\w+", a) or a not in ptypes:
                     raise Undecided(f"{what}: format argument `{a}` is not a parameter of the production: outside rewrite R14")
                 prev = pieces[i - 1]
                 if (prev and re.search(r"[A-Za-z0-9_]$", prev)) or (prev == "" and i > 1) or (pc and re.match(r"[A-Za-z0-9_]", pc)):
                     raise Undecided(f"{what}: argument `{a}` touches an identifier character or another argument in {lit}: token boundaries not visible (R14)")
-                ty = ptypes[a].replace("&", "").strip()
-                if ty in ("String", "str"):
+                ty = "literal" if re.fullmatch(r"\d+", a) else ptypes[a].replace("&", "").strip()
+                if ty == "literal":
+                    units.append(("N", a))
+                elif ty in ("String", "str"):
                     units.append(("P", a))
                 elif ty in ("u8", "i8", "u16", "i16", "u32", "i32", "usize"):
                     units.append(("N", a))
@@ -310,7 +314,7 @@ class Extractor:
         m = re.search(r"->\s*([^{]+)$", sig)
         if m and "ensures" in contract:
             ty = m.group(1).strip()
-            sig = sig[:m.start()] + f"-> (r: {ty})"
+            sig = sig[:m.start()] + f"-> ({opts.get('result') or 'r'}: {ty})"
         return f"{sig}\n{contract.rstrip()}\n{body}\n"
 
     def _rewrite_body(self, body: str, what: str, opts=None) -> str:
@@ -374,6 +378,24 @@ class Extractor:
                 self.rewrites.append(f"{what}: R14 {arg[:50]} -> fmt_toks (token view)")
                 return f"{mm.group(1)}verif_io::fmt_toks(Ghost({self.tok_expr(units)})));"
             body = re.sub(r"(out\.(?:code|data)\.push\()(.*?)\);", push_arg, body, flags=re.S)
+            ptypes2 = dict(ptypes)
+            for hint in opts.get("fmtvar", []):
+                v, _, ty = hint.partition(":")
+                ptypes2[v] = ty            # a variable bound by a pattern inside the block (`if let Some(s) = sr`), typed by the template
+            def any_fmt(m):
+                am = re.match(r'\s*("(?:[^"\\]|\\.)*")\s*(?:,(.*))?$', m.group(2), re.S)
+                if not am:
+                    raise Undecided(f"{what}: format! without a literal: outside rewrite R14")
+                args = [x.strip() for x in split_top(am.group(2) or "")]
+                units = self.fmt_units(am.group(1), args, ptypes2, what)
+                self.rewrites.append(f"{what}: R14 format!({am.group(1)[:40]}..) -> fmt_toks (token view)")
+                return f"verif_io::fmt_toks(Ghost({self.tok_expr(units)}))"
+            # the text of a diagnostic (argument of error!) stays opaque (R3); every other format! is a text the production hands on
+            def keep_err(m):
+                inner = replace_macro(m.group(2), ("format",), lambda mm: "verif_io::opaque_string()")
+                return f"error!({inner})"
+            body = replace_macro(body, ("error",), keep_err)
+            body = replace_macro(body, ("format",), any_fmt)
 
         def fm(m):
             self.rewrites.append(f"{what}: R3 format!")
@@ -551,7 +573,7 @@ def expand(template: str, ex: Extractor) -> str:
         if kind in ("fn", "action"):
             # collect contract block
             contract, loops = [], {}
-            opts = {"ghost": [], "after": [], "before": [], "str": [], "strslice": False, "dropunused": False, "fmttoks": False}
+            opts = {"ghost": [], "after": [], "before": [], "str": [], "strslice": False, "dropunused": False, "fmttoks": False, "fmtvar": []}
             j = i + 1
             if j < len(lines) and lines[j].strip().startswith("//@contract"):
                 j += 1
@@ -559,16 +581,18 @@ def expand(template: str, ex: Extractor) -> str:
                 while not (lines[j].strip() == "//@end" and cur_loop is None):
                     s = lines[j].strip()
                     lm = re.match(r"//@loop (\d+)", s)
-                    om = re.match(r"//@(ghost|after|before|str)\s+(.*)$", s)
+                    om = re.match(r"//@(ghost|after|before|str|fmtvar)\s+(.*)$", s)
                     if s == "//@strslice":
                         opts["strslice"] = True
                     elif s == "//@dropunused":
                         opts["dropunused"] = True
                     elif s == "//@fmttoks":
                         opts["fmttoks"] = True
+                    elif s.startswith("//@result "):
+                        opts["result"] = s.split()[1]      # name of the result in the contract (default r) when a parameter is called r
                     elif om and cur_loop is None:
-                        if om.group(1) == "str":
-                            opts["str"] += om.group(2).split()
+                        if om.group(1) in ("str", "fmtvar"):
+                            opts[om.group(1)] += om.group(2).split()
                         else:
                             callee, _, txt = om.group(2).partition(" :: ")
                             opts[om.group(1)].append((callee.strip(), txt.strip()))
